@@ -15,6 +15,11 @@ import (
 // arriving over P2P on a header-only (light) node: decode, Validate(), header.Verify(trusted, h),
 // then Store.Append. The store is what the node serves to light clients.
 func lightOffer(c *Ctx, w *world.World, store *[]*types.SignedHeader, class string, bz []byte) {
+	defer func() { // a panic in the node's own decode / validate / verify code is an observation, not a harness failure
+		if p := recover(); p != nil {
+			c.Tr.Emit("LightOffer", world.F{"node": "light", "class": class, "res": "panic", "sig": "none", "h": 0, "hash": ""})
+		}
+	}()
 	h := new(types.SignedHeader)
 	res := "admitted"
 	if err := h.UnmarshalBinary(bz); err != nil {
